@@ -3,7 +3,7 @@
      ExceptionInfo.from_exc_info / get_formatted / get_formatted_exception_only,
      Callpoint.tb_frame_str, TracebackInfo.get_formatted, _DeferredLine.__str__,
      format_exception_only / _format_final_exc_line / print_exception
-   (after the fix: commits for the empty message, __qualname__, module prefix and recursion folding).
+   (after the fix: commits for the empty message, __qualname__, module prefix, recursion folding and the str() failure placeholder).
    Definitions only.  Frame walking (tb_next, f_code, linecache) is CPython's and is
    input data here. *)
 From Boltons Require Import Lib.Prelude Lib.C16_Text.
@@ -302,11 +302,11 @@ Section Model.
   Definition ei_formatted (cs : list callpoint) (ty msg : str) : str :=
     tbi_formatted cs ++ ei_exc_only ty msg.
 
-  (* _some_str(value): str(value), or a placeholder naming the type when that raises *)
-  Definition M_unprintable1 : str := [60;117;110;112;114;105;110;116;97;98;108;101;32].   (* <unprintable + blank *)
-  Definition M_unprintable2 : str := [32;111;98;106;101;99;116;62].                       (* blank + object> *)
+  (* _some_str(value): str(value), or the interpreter's placeholder when that raises *)
+  Definition M_str_failed : str :=      (* <exception str() failed> *)
+    [60;101;120;99;101;112;116;105;111;110;32;115;116;114;40;41;32;102;97;105;108;101;100;62].
   Definition ei_msg (e : live_exc) : str :=
-    match ex_str e with Some s => s | None => M_unprintable1 ++ ex_name e ++ M_unprintable2 end.
+    match ex_str e with Some s => s | None => M_str_failed end.
 
   (* ExceptionInfo.from_exc_info(type, value, tb).get_formatted() as a function of what the
      interpreter reports about the traceback and the exception *)
